@@ -14,6 +14,8 @@ import (
 	"path/filepath"
 	"sort"
 	"strings"
+	"sync"
+	"sync/atomic"
 	"syscall"
 	"time"
 
@@ -48,6 +50,19 @@ type CaseIn struct {
 	A        string   `json:"a"`
 	B        string   `json:"b"`
 	Spelling string   `json:"spelling,omitempty"` // stream from-spelling: `from` relative to a scratch directory, spelled as given
+	Conc     *ConcSpec `json:"conc,omitempty"`     // stream concurrent: this call ran WHILE the other workers of the group ran theirs
+}
+
+// ConcSpec describes a group of tree copies that run at the same time, each in its own goroutine on its own world
+// (replay re-runs the whole group: a single call on its own is the sequential case).
+type ConcSpec struct {
+	Workers int `json:"workers"` // goroutines copying / linking, each its own source and destination
+	Walkers int `json:"walkers"` // goroutines that only fs.Walk directories of their own (as input hashing does)
+	Files   int `json:"files"`   // regular files per directory (two directories per tree)
+	Reps    int `json:"reps"`    // how often each worker repeats its call within a round (destination removed in between)
+	Rounds  int `json:"rounds"`
+	Round   int `json:"round"` // which round / worker this input was
+	Worker  int `json:"worker"`
 }
 
 func file(perm uint32, c string) *Node { return &Node{K: "file", Perm: perm, C: []byte(c)} }
@@ -285,6 +300,12 @@ func snapshot(p string, rel string, out map[string]meta) {
 }
 
 func diffSnap(a, b map[string]meta) string {
+	_, msg := diffSnapKey(a, b)
+	return msg
+}
+
+// diffSnapKey: the first difference as (path, kind of difference + description); kind is the word before the colon
+func diffSnapKey(a, b map[string]meta) (string, string) {
 	keys := map[string]bool{}
 	for k := range a {
 		keys[k] = true
@@ -302,22 +323,22 @@ func diffSnap(a, b map[string]meta) string {
 		y, oky := b[k]
 		switch {
 		case !okx:
-			return "appeared: " + k
+			return k, "appeared: " + k
 		case !oky:
-			return "vanished: " + k
+			return k, "vanished: " + k
 		case x.kind != y.kind:
-			return fmt.Sprintf("%s: kind %s -> %s", k, x.kind, y.kind)
+			return k, fmt.Sprintf("%s: kind %s -> %s", k, x.kind, y.kind)
 		case x.data != y.data:
-			return fmt.Sprintf("%s: content/target %q -> %q", k, x.data, y.data)
+			return k, fmt.Sprintf("%s: content/target %q -> %q", k, x.data, y.data)
 		case x.perm != y.perm:
-			return fmt.Sprintf("%s: mode %v -> %v", k, x.perm, y.perm)
+			return k, fmt.Sprintf("%s: mode %v -> %v", k, x.perm, y.perm)
 		case x.ino != y.ino:
-			return fmt.Sprintf("%s: replaced by another inode", k)
+			return k, fmt.Sprintf("%s: replaced by another inode", k)
 		case !x.mtime.Equal(y.mtime):
-			return fmt.Sprintf("%s: modification time changed", k)
+			return k, fmt.Sprintf("%s: modification time changed", k)
 		}
 	}
-	return ""
+	return "", ""
 }
 
 // ------------------------------------------------------------------------------------------- comparing for the oracle
@@ -346,6 +367,16 @@ func sameShape(src, dst *Node, at string) (string, string) {
 	case "dir":
 		for _, e := range src.Es {
 			if c, w := sameShape(e.N, find(dst.Es, e.Name), at+"/"+e.Name); c != "" {
+				// narrow classes: the entry that went wrong has a name DERIVED from a sibling's name (pre+NAME+suf):
+				// what a temporary / backup / lock file of that sibling would be called
+				if o := derivedFrom(src.Es, e.Name); o != "" && e.N.K != "dir" {
+					switch c {
+					case "entry-missing":
+						return "sibling-with-derived-name-lost", w + " (its name is derived from its sibling " + o + ")"
+					case "content-differs", "kind-changed":
+						return "sibling-with-derived-name-overwritten", w + " (its name is derived from its sibling " + o + ")"
+					}
+				}
 				return c, w
 			}
 		}
@@ -356,6 +387,16 @@ func sameShape(src, dst *Node, at string) (string, string) {
 		}
 	}
 	return "", ""
+}
+
+// derivedFrom: the sibling whose name is properly contained in `name` ("" if there is none)
+func derivedFrom(es []*Entry, name string) string {
+	for _, o := range es {
+		if o.Name != name && o.N.K == "file" && strings.Contains(name, o.Name) {
+			return o.Name
+		}
+	}
+	return ""
 }
 
 // covers: every entry of src is present in dst with the same kind, equal contents, equal symlink target (dst may hold
@@ -435,51 +476,110 @@ type runner struct {
 	n     int
 }
 
+// prepared: one case between materialising its world and judging the outcome
+type prepared struct {
+	in        *CaseIn
+	d         *disk
+	from, to  string
+	src       *Node
+	fresh     bool
+	followed  []byte
+	followErr error
+	before    map[string]meta
+	beforeDst map[string]meta
+	err       error
+	reps      int    // > 1: the call is repeated (destination removed in between), stopping at the first failure
+	prefix    string // prepended to every defect class the oracle reports for this case
+	cleanup   func()
+}
+
 func (r *runner) run(in *CaseIn, stream string) {
-	c := r.c
+	p := r.prepare(in)
+	defer p.cleanup()
+	p.call()
+	r.finish(p, stream, true)
+}
+
+// prepare materialises the world of a case and snapshots it
+func (r *runner) prepare(in *CaseIn) *prepared {
 	r.n++
 	d := &disk{root: filepath.Join(r.base, fmt.Sprintf("w%d", r.n)), pin: filepath.Join(r.base, fmt.Sprintf("p%d", r.n)),
 		labels: map[inoKey]int{}, first: map[int]string{}}
 	must(os.Mkdir(d.root, 0o755))
 	must(os.Mkdir(d.pin, 0o755))
-	defer os.RemoveAll(d.root)
-	defer os.RemoveAll(d.pin)
 	if in.XDev {
 		d.xroot = filepath.Join(r.xbase, fmt.Sprintf("w%d", r.n))
 		must(os.Mkdir(d.xroot, 0o755))
-		defer os.RemoveAll(d.xroot)
+	}
+	p := &prepared{in: in, d: d, reps: 1}
+	p.cleanup = func() {
+		os.RemoveAll(d.root)
+		os.RemoveAll(d.pin)
+		if d.xroot != "" {
+			os.RemoveAll(d.xroot)
+		}
 	}
 	for _, e := range in.World {
 		d.create(d.pathOf(in, e.Name), e.N)
 	}
-	from, to := d.pathOf(in, in.A), d.pathOf(in, in.B)
-	src := find(in.World, in.A)
-	fresh := find(in.World, in.B) == nil
+	p.from, p.to = d.pathOf(in, in.A), d.pathOf(in, in.B)
+	p.src = find(in.World, in.A)
+	p.fresh = find(in.World, in.B) == nil
 
 	// what the OS says opening `from` gives (for a top-level symlink that is copied)
-	followed, followErr := []byte(nil), error(nil)
-	if src != nil && src.K == "link" {
-		followed, followErr = os.ReadFile(from)
+	if p.src != nil && p.src.K == "link" {
+		p.followed, p.followErr = os.ReadFile(p.from)
 	}
-	before := map[string]meta{}
+	p.before = map[string]meta{}
 	for _, e := range in.World {
 		if e.Name != in.B {
-			snapshot(d.pathOf(in, e.Name), e.Name, before)
+			snapshot(d.pathOf(in, e.Name), e.Name, p.before)
 		}
 	}
-	beforeDst := map[string]meta{}
-	snapshot(to, "", beforeDst)
+	p.beforeDst = map[string]meta{}
+	snapshot(p.to, "", p.beforeDst)
+	return p
+}
 
-	// ---- the implementation
-	var err error
-	switch in.Via {
-	case "RecursiveCopy":
-		err = fs.RecursiveCopy(from, to, os.FileMode(in.Mode))
-	case "RecursiveLink":
-		err = fs.RecursiveLink(from, to)
-	default:
-		err = fs.RecursiveCopyOrLinkFile(from, to, os.FileMode(in.Mode), in.Link, in.Fallback)
+// call runs the implementation (safe to run in a goroutine of its own: it touches nothing but p and its world)
+func (p *prepared) call() {
+	in := p.in
+	once := func() (err error) {
+		if p.reps > 1 {
+			defer func() {
+				if x := recover(); x != nil {
+					err = fmt.Errorf("panic: %v", x)
+				}
+			}()
+		}
+		switch in.Via {
+		case "RecursiveCopy":
+			return fs.RecursiveCopy(p.from, p.to, os.FileMode(in.Mode))
+		case "RecursiveLink":
+			return fs.RecursiveLink(p.from, p.to)
+		}
+		return fs.RecursiveCopyOrLinkFile(p.from, p.to, os.FileMode(in.Mode), in.Link, in.Fallback)
 	}
+	for i := 0; i < p.reps; i++ {
+		if i > 0 {
+			must(os.RemoveAll(p.to))
+		}
+		if p.err = once(); p.err != nil {
+			return
+		}
+		if p.reps > 1 && p.src != nil {
+			if class, _ := sameShape(p.src, p.d.read(p.to), in.B); class != "" {
+				return // leave the destination as it is: finish judges it
+			}
+		}
+	}
+}
+
+// finish reads the world back, sends the case to the model side and judges the property
+func (r *runner) finish(p *prepared, stream string, emit bool) {
+	c := r.c
+	in, d, src, fresh, err := p.in, p.d, p.src, p.fresh, p.err
+	to, before, beforeDst, followed, followErr := p.to, p.before, p.beforeDst, p.followed, p.followErr
 
 	// ---- read back
 	after := []*Entry{}
@@ -521,11 +621,15 @@ func (r *runner) run(in *CaseIn, stream string) {
 	js := map[string]any{"in": in, "error": fmt.Sprint(err), "after": after}
 	nontrivial := src != nil && (src.size() >= 2 || src.K == "link")
 	key := fmt.Sprintf("%s|%o %v %v %v|%s|%s", stream, in.Mode, in.Link, in.Fallback, in.XDev, in.A, (&Node{K: "dir", Es: in.World}).key())
-	c.Case(lib.App("Case", cfg, coqEntries(in.World), lib.Str(in.A), lib.Str(in.B), obs), js, key, nontrivial)
+	if emit {
+		c.Case(lib.App("Case", cfg, coqEntries(in.World), lib.Str(in.A), lib.Str(in.B), obs), js, key, nontrivial)
+	} else {
+		c.Eval(js, key, nontrivial)
+	}
 
 	// ---- property oracle (no model involved)
 	c.Oracle()
-	fail := func(class, what string) { c.Fail(class, what, in) }
+	fail := func(class, what string) { c.Fail(p.prefix+class, what, in) }
 	under := func(m map[string]meta, inside bool) map[string]meta {
 		out := map[string]meta{}
 		for k, v := range m {
@@ -535,8 +639,17 @@ func (r *runner) run(in *CaseIn, stream string) {
 		}
 		return out
 	}
-	if diff := diffSnap(under(before, true), under(afterSnap, true)); diff != "" {
-		fail("source-modified", "the source tree was changed by the operation: "+diff)
+	if k, diff := diffSnapKey(under(before, true), under(afterSnap, true)); diff != "" {
+		class := "source-modified"
+		if rel := strings.TrimPrefix(strings.TrimPrefix(k, in.A), "/"); rel != "" && src != nil {
+			if parent := lookup(src, strings.TrimSuffix(strings.TrimSuffix(rel, filepath.Base(rel)), "/")); parent != nil && parent.K == "dir" {
+				if o := derivedFrom(parent.Es, filepath.Base(rel)); o != "" {
+					class = "source-sibling-with-derived-name-written"
+					diff += " (its name is derived from its sibling " + o + ")"
+				}
+			}
+		}
+		fail(class, "the source tree was changed by the operation: "+diff)
 	}
 	if diff := diffSnap(under(before, false), under(afterSnap, false)); diff != "" {
 		fail("sibling-modified", "something next to the source was changed by the operation: "+diff)
@@ -906,6 +1019,122 @@ func (r *runner) cases(src *Node, extra []*Entry, cfgs []config, stream string) 
 	}
 }
 
+// ------------------------------------------------------------------------------------------- siblings with derived names
+
+// names a temporary / backup / lock / editor file of NAME could have
+func lookalikes(name string) []string {
+	return []string{"." + name + ".tmp", name + ".tmp", "." + name, name + "~", "#" + name + "#", ".#" + name, name + ".swp",
+		"." + name + ".swp", name + ".new", name + ".part", name + ".bak", name + ".lock", "tmp" + name, ".tmp" + name,
+		name + "0", name + "000000000", "." + name + ".tmp~", name + ".tmp.tmp"}
+}
+
+// a tree that holds NAME and a sibling with a name derived from it, at the top and one level down
+func lookalikeTree(name, other string) *Node {
+	pair := func(tag string) []*Entry {
+		es := []*Entry{{name, file(0o644, tag+" real output")}, {other, file(0o600, tag+" a different file that merely has a similar name")}}
+		sortEntries(es)
+		return es
+	}
+	es := append(pair("top"), &Entry{"d", dir(append(pair("nested"), &Entry{"unrelated.c", file(0o644, "int x;")})...)})
+	sortEntries(es)
+	sortEntries(find(es, "d").Es)
+	return dir(es...)
+}
+
+// destinations the tree is copied onto: "" = fresh; older-name = an earlier build left NAME behind (both levels);
+// hard-linked = an earlier RecursiveLink of the same tree; older-other = the derived name is there already
+func lookalikeDest(kind, name, other string, src *Node) *Node {
+	switch kind {
+	case "older-name":
+		return dir(&Entry{"d", dir(&Entry{name, file(0o644, "old")})}, &Entry{name, file(0o644, "old")})
+	case "older-other":
+		return dir(&Entry{other, file(0o644, "old lookalike")})
+	case "hard-linked":
+		return copyOf(src, true)
+	}
+	return nil
+}
+
+// ------------------------------------------------------------------------------------------- copies at the same time
+
+// concTree: two directories of `files` regular files each, a symlink, an empty directory; names and contents are the worker's own
+func concTree(id, round, files int) *Node {
+	mk := func(dirTag string) []*Entry {
+		es := []*Entry{}
+		for i := 0; i < files; i++ {
+			name := fmt.Sprintf("w%d_%s_file_%03d", id, dirTag, i)
+			es = append(es, &Entry{name, file(0o644, fmt.Sprintf("worker %d round %d %s", id, round, name))})
+		}
+		return es
+	}
+	sub := append(mk("sub"), &Entry{"l", link(fmt.Sprintf("w%d_sub_file_000", id))})
+	sortEntries(sub)
+	es := append(mk("top"), &Entry{"empty", dir()}, &Entry{"sub", dir(sub...)})
+	sortEntries(es)
+	return dir(es...)
+}
+
+// concurrent runs spec.Rounds groups of spec.Workers tree copies AT THE SAME TIME, each in its own goroutine on its own
+// world (what a parallel build does when it collects outputs, builds filegroups, stores to and retrieves from the
+// cache), while spec.Walkers goroutines walk directories of their own (input hashing).  Every call is then judged
+// exactly like a sequential one: the model's (sequential) outcome for the first `emitRounds` rounds, the oracle for all.
+func (r *runner) concurrent(spec ConcSpec, emitRounds int) {
+	// the walkers' directories
+	noise := []string{}
+	for i := 0; i < spec.Walkers; i++ {
+		nd := filepath.Join(r.base, fmt.Sprintf("noise%d", i))
+		must(os.MkdirAll(filepath.Join(nd, "sub"), 0o755))
+		for j := 0; j < spec.Files+20; j++ {
+			must(os.WriteFile(filepath.Join(nd, fmt.Sprintf("n%d_%03d", i, j)), []byte("n"), 0o644))
+			must(os.WriteFile(filepath.Join(nd, "sub", fmt.Sprintf("n%d_sub_%03d", i, j)), []byte("n"), 0o644))
+		}
+		noise = append(noise, nd)
+		defer os.RemoveAll(nd)
+	}
+	for round := 0; round < spec.Rounds; round++ {
+		ps := []*prepared{}
+		for id := 0; id < spec.Workers; id++ {
+			k := []config{{"RecursiveLink", 0, true, true, false}, {"RecursiveCopy", 0o644, false, false, false}}[(id+round)%2]
+			sp := spec
+			sp.Round, sp.Worker = round, id
+			in := &CaseIn{Mode: k.mode, Link: k.link, Fallback: k.fb, Via: k.via, World: world(concTree(id, round, spec.Files)), A: "src", B: "dst", Conc: &sp}
+			p := r.prepare(in)
+			p.reps, p.prefix = spec.Reps, "concurrent-"
+			ps = append(ps, p)
+		}
+		var stop atomic.Bool
+		var walkers, workers sync.WaitGroup
+		start := make(chan struct{})
+		for _, nd := range noise {
+			walkers.Add(1)
+			go func(nd string) {
+				defer walkers.Done()
+				defer func() { recover() }() // the walkers are only there to read directories at the same time
+				<-start
+				for !stop.Load() {
+					fs.Walk(nd, func(string, bool) error { return nil })
+				}
+			}(nd)
+		}
+		for _, p := range ps {
+			workers.Add(1)
+			go func(p *prepared) {
+				defer workers.Done()
+				<-start
+				p.call()
+			}(p)
+		}
+		close(start)
+		workers.Wait()
+		stop.Store(true)
+		walkers.Wait()
+		for _, p := range ps {
+			r.finish(p, "concurrent", round < emitRounds)
+			p.cleanup()
+		}
+	}
+}
+
 func main() {
 	lib.Main("C34", func(c *lib.Ctx) {
 		c.Model("From PlzV Require Import Model.C34.", "C34.case", "C34.check")
@@ -946,6 +1175,10 @@ func main() {
 				r.spelling(in)
 				return
 			}
+			if in.Conc != nil { // a call that ran while others ran: re-run its whole group (a call alone is the sequential case)
+				r.concurrent(*in.Conc, 1)
+				return
+			}
 			r.run(in, "replay")
 			return
 		}
@@ -955,7 +1188,7 @@ func main() {
 			"run through RecursiveCopy(0555), RecursiveLink, link-without-fallback and RecursiveLink across devices; every kind of top-level symlink "+
 			"(to a file, a directory, a symlink, itself, nothing) x 5 configurations; random larger trees (odd names, binary contents, many modes, absolute and "+
 			"escaping symlink targets, hard links inside the source) x random configurations; destinations that already exist (stale files, directories in the way, "+
-			"an earlier hard-linked copy); the call repeated over an earlier copy / hard-linked copy of the same tree x RecursiveLink, RecursiveCopy, link-without-fallback; `from` spelled in 10 ways (clean, //, /./, trailing /, ./, x/.., /. ; directory and file) x RecursiveCopy, RecursiveLink. distinct = distinct (world, configuration); non-trivial = source with >= 2 nodes or a symlink root", maxNodes))
+			"an earlier hard-linked copy); the call repeated over an earlier copy / hard-linked copy of the same tree x RecursiveLink, RecursiveCopy, link-without-fallback; `from` spelled in 10 ways (clean, //, /./, trailing /, ./, x/.., /. ; directory and file) x RecursiveCopy, RecursiveLink; trees that hold NAME next to a sibling whose name is derived from it (18 forms: .NAME.tmp, NAME~, NAME.lock, ...; two levels) x 4 configurations x fresh / older NAME / earlier hard-linked copy / older sibling at the destination; groups of 8 large trees copied and linked at the same time by 8 goroutines (plus 4 goroutines walking), each call judged as a sequential one. distinct = distinct (world, configuration); non-trivial = source with >= 2 nodes or a symlink root", maxNodes))
 
 		std := []config{
 			{"RecursiveCopy", 0o555, false, false, false},
@@ -1013,6 +1246,49 @@ func main() {
 			for _, via := range []string{"RecursiveCopy", "RecursiveLink"} {
 				r.spelling(&CaseIn{Spelling: sp, Via: via})
 			}
+		}
+
+		t7 := time.Now()
+		// --- 7. siblings whose names are derived from each other (NAME next to .NAME.tmp, NAME~, NAME.lock, ...): what a
+		//        temporary, backup or lock file of NAME would be called is also a name an output can have
+		for ni, name := range []string{"out", "x.go"} {
+			for oi, other := range lookalikes(name) {
+				if ni > 0 && oi >= 6 {
+					break
+				}
+				t := lookalikeTree(name, other)
+				kinds, cfgs := []string{"", "older-name", "hard-linked", "older-other"}, std
+				if ni > 0 {
+					kinds, cfgs = kinds[:2], std[:2]
+				}
+				for _, kind := range kinds {
+					extra := []*Entry{}
+					ks := cfgs
+					if dn := lookalikeDest(kind, name, other, t); dn != nil {
+						extra = append(extra, &Entry{"dst", dn})
+						ks = nil
+						for _, k := range cfgs { // an existing destination is materialised on the main device only
+							if !k.xdev {
+								ks = append(ks, k)
+							}
+						}
+					}
+					r.cases(t, extra, ks, "derived-sibling-names")
+				}
+			}
+		}
+
+		if os.Getenv("C34_TIMING") != "" {
+			fmt.Fprintf(os.Stderr, "stream 7 took %v\n", time.Since(t7))
+		}
+		t8 := time.Now()
+		// --- 8. copies running at the same time
+		conc := ConcSpec{Workers: 8, Walkers: 4, Files: c.Scale(100, 150), Reps: c.Scale(3, 6), Rounds: c.Scale(3, 12)}
+		r.concurrent(conc, 1)
+		c.Note("concurrent: %d rounds x %d goroutines copying/linking trees of %d entries each (%d repetitions per round) + %d goroutines walking; every call judged as a sequential one",
+			conc.Rounds, conc.Workers, 2*conc.Files+4, conc.Reps, conc.Walkers)
+		if os.Getenv("C34_TIMING") != "" {
+			fmt.Fprintf(os.Stderr, "stream 8 took %v\n", time.Since(t8))
 		}
 
 		// --- observation: a destination that holds a symlink to a directory OF THE SOURCE (outside the model: Unsupported)
